@@ -315,6 +315,25 @@ func genCSV2(t *tape.Tape, o GenOpts) *World {
 			return "B" + delim + csvLine(r.Vals, delim, -1) + ieol + "M" + ieol + "E"
 		}
 	}
+	// the target inside a non-target parent record (a batch header with the records below it): the
+	// parent stays while its children come and go; it may be closed and a new one opened between records
+	parentReopen, parentLine := false, ""
+	if recDecl["header"] != nil && o.Family == "" && t.Chance("csv2.parent", 1, 4) {
+		parent := D{"name": "P", "header": "^P" + regexpQuote(delim), "min": 0, "max": -1,
+			"columns": []interface{}{D{"name": "p0", "index": 2}}, "child_records": []interface{}{recDecl}}
+		recDecl = parent
+		pline := "P" + delim + csvField(Text(t, sh.Charset, 5), delim, false)
+		w.Prefix += pline + eol
+		if !o.OwnDataOnly {
+			for i := range m.Ctx {
+				m.Ctx[i] = "../" + m.Ctx[i]
+			}
+			m.Ctx = append(m.Ctx, "../p0")
+		}
+		parentReopen = !o.NoSiblingContext && t.Bool("csv2.parent.reopen")
+		parentLine = pline
+		w.SetTag("flat.target-inside-a-parent-record", "1")
+	}
 	records = append(records, recDecl)
 	trailer := layout != 1 && globalHdr && t.Bool("csv2.trailer")
 	if trailer {
@@ -334,6 +353,9 @@ func genCSV2(t *tape.Tape, o GenOpts) *World {
 	w.Sep = eol
 	if t.Chance("gen.blankLines", 1, 4) {
 		w.Sep = eol + eol
+	}
+	if parentReopen {
+		w.Sep += parentLine + eol
 	}
 	if trailer {
 		w.Suffix = eol + "TRL" + delim + "9"
@@ -598,6 +620,24 @@ func genFixed2(t *tape.Tape, o GenOpts) *World {
 			return sb.String()
 		}
 	}
+	// the target inside a non-target parent envelope (see csv2)
+	fl2Reopen, fl2ParentLine := false, ""
+	if layout >= 2 && o.Family == "" && t.Chance("fl2.parent", 1, 4) {
+		last := envs[len(envs)-1].(D)
+		parent := D{"name": "P", "header": "^P", "min": 0, "max": -1,
+			"columns": []interface{}{D{"name": "p0", "start_pos": 2, "length": 5}}, "child_envelopes": []interface{}{last}}
+		envs[len(envs)-1] = parent
+		fl2ParentLine = "P" + pad(Text(t, sh.Charset, 5), 5)
+		w.Prefix += fl2ParentLine + eol
+		if !o.OwnDataOnly {
+			for i := range m.Ctx {
+				m.Ctx[i] = "../" + m.Ctx[i]
+			}
+			m.Ctx = append(m.Ctx, "../p0")
+		}
+		fl2Reopen = !o.NoSiblingContext && t.Bool("fl2.parent.reopen")
+		w.SetTag("flat.target-inside-a-parent-record", "1")
+	}
 	trailer := globalHdr && t.Bool("fl2.trailer")
 	if trailer {
 		envs = append(envs, D{"name": "TRL", "header": "^TRL", "min": 1, "max": 1})
@@ -613,6 +653,9 @@ func genFixed2(t *tape.Tape, o GenOpts) *World {
 	w.Sep = eol
 	if t.Chance("gen.blankLines", 1, 4) {
 		w.Sep = eol + eol
+	}
+	if fl2Reopen {
+		w.Sep += fl2ParentLine + eol
 	}
 	if trailer {
 		w.Suffix = eol + "TRL9"
